@@ -15,7 +15,7 @@ open Iora
 /-- the `HttpFramingError` thrown, as a small enum (harness maps the message prefix) -/
 inductive Kind where
   | statusLine | version | statusCode | obsFold | noColon | dupCL
-  | connect | clAndTe | badCL | clList | clTooBig | chunk | cap
+  | connect | clAndTe | badCL | clList | clTooBig | chunk | cap | overflow
   deriving DecidableEq, Repr
 
 structure Resp where
@@ -44,11 +44,6 @@ def parseCLElems : List Bytes → Option Nat → Except Kind Nat
 /-- mirrors `parseContentLength` -/
 def parseContentLength (v : Bytes) : Except Kind Nat := parseCLElems (splitOn 44 v) none
 
-/-- last non-empty OWS-trimmed element of the comma list -/
-def lastToken : List Bytes → Bytes → Bytes
-  | [], last => last
-  | e :: es, last => lastToken es (if (trim e).isEmpty then last else trim e)
-
 /-- mirrors `transferEncodingFinalIsChunked` -/
 def transferEncodingFinalIsChunked (v : Bytes) : Bool :=
   ciEq (lastToken (splitOn 44 v) []) (ascii "chunked")
@@ -72,9 +67,9 @@ def parseFieldLines : List Bytes → Option Bytes → Headers → Except Kind He
           if ciEq name (ascii "Content-Length") then
             match cl with
             | some old => if value ≠ old then .error .dupCL
-                          else parseFieldLines rest (some value) (hdrSet h name value)
-            | none => parseFieldLines rest (some value) (hdrSet h name value)
-          else parseFieldLines rest cl (hdrSet h name value)
+                          else parseFieldLines rest (some value) (hdrAdd h name value)
+            | none => parseFieldLines rest (some value) (hdrAdd h name value)
+          else parseFieldLines rest cl (hdrAdd h name value)
 
 /-- the status-line part of `parseHeaderBlock`: (version, code, reason) -/
 def parseStatusLine (sl : Bytes) : Except Kind (Bytes × Nat × Bytes) :=
@@ -330,18 +325,28 @@ decreasing_by
 inductive Recv where
   | data (seg : Bytes)        -- `isOk() && len > 0` (an empty read changes nothing)
   | peerClosed                -- `TransportError::PeerClosed`
-  deriving Repr
+  | timeout                   -- `TransportError::Timeout`
+  | overflow                  -- `TransportError::BufferOverflow`
+  | shuttingDown              -- `TransportError::ShuttingDown`
+  | otherError                -- any other error code (last `else if (recvResult.isErr())`)
+  deriving DecidableEq, Repr
 
-/-- terminal result of the receive loop: a response, a framing error, or the non-framing `runtime_error`
-"Connection closed before receiving complete HTTP response" -/
+/-- the non-framing `std::runtime_error`s thrown out of the loop -/
+inductive Fail where
+  | timeout                   -- "HTTP response timeout"
+  | shuttingDown              -- "HTTP transport shutting down before response complete"
+  | closedEarly               -- "Connection closed before receiving complete HTTP response"
+  deriving DecidableEq, Repr
+
+/-- terminal result of the receive loop: a response, a framing error (`HttpFramingError`), or a non-framing failure -/
 inductive LoopOut where
   | more
   | response (r : Resp) (forceEvict : Bool)
   | framingError (k : Kind)
-  | closedEarly
+  | failed (f : Fail)
   deriving DecidableEq, Repr
 
-/-- one turn of the receive loop of `executeRequest` -/
+/-- one turn of the receive loop of `executeRequest` (arms in source order) -/
 def recvStep (method : Bytes) (cap : Nat) (st : St) : Recv → St × LoopOut
   | .data seg =>
     if seg.isEmpty then (st, .more)
@@ -353,10 +358,14 @@ def recvStep (method : Bytes) (cap : Nat) (st : St) : Recv → St × LoopOut
         | (st2, .needMore) => (st2, .more)
         | (st2, .complete) => (st2, .response st2.resp st2.forceEvict)
         | (st2, .malformed k) => (st2, .framingError k)
+  | .timeout => (st, .failed .timeout)
+  | .overflow => (st, .framingError .overflow)
+  | .shuttingDown => (st, .failed .shuttingDown)
   | .peerClosed =>
     if st.headersDone ∧ st.framing.mode = .closeDelimited then
       (st, .response { st.resp with body := st.data.drop st.bodyStart } true)
-    else (st, .closedEarly)
+    else (st, .failed .closedEarly)
+  | .otherError => (st, .failed .closedEarly)
 
 /-- the `while (!complete)` loop of `executeRequest` over a scripted sequence of `receiveSync` results: it stops at the
 first terminal outcome (a response is returned, or an exception leaves the loop) -/
@@ -366,5 +375,62 @@ def runLoop (method : Bytes) (cap : Nat) : St → List Recv → St × LoopOut
     match recvStep method cap st r with
     | (st', .more) => runLoop method cap st' rs
     | res => res
+
+/-! ### around the loop: what `receiveSync` hands out, the cap, the reuse decision -/
+
+/-- `receiveSync(sid, buffer, len = sizeof buffer)` drains at most `sizeof buffer` bytes per call: bytes that arrived together
+are seen as successive reads of at most `Gen.Http.clientReadSize` bytes -/
+def splitReads (n : Nat) (seg : Bytes) : List Bytes :=
+  if h : n = 0 ∨ seg.length ≤ n then [seg] else seg.take n :: splitReads n (seg.drop n)
+termination_by seg.length
+decreasing_by simp only [List.length_drop]; omega
+
+/-- `effectiveCap = std::max(_config.maxResponseBytes, _config.jsonConfig.maxPayloadSize)` -/
+def effectiveCap (maxResponseBytes jsonMaxPayload : Nat) : Nat := max maxResponseBytes jsonMaxPayload
+
+/-- mirrors `responseRequestsClose(resp)`: a `close` token wins, an explicit `keep-alive` keeps, else HTTP/1.0 closes -/
+def connTokens (v : Bytes) : List Bytes := ((splitOn 44 v).map (fun e => lower (trim e))).filter (fun t => !t.isEmpty)
+def responseRequestsClose (resp : Resp) : Bool :=
+  match hdrFind resp.headers (ascii "Connection") with
+  | some v =>
+    if (connTokens v).contains (ascii "close") then true
+    else if (connTokens v).contains (ascii "keep-alive") then false
+    else resp.version == ascii "1.0"
+  | none => resp.version == ascii "1.0"
+
+/-- the loop over what the engine delivered: each delivery is read in pieces of at most `Gen.Http.clientReadSize` bytes;
+`residual` = the response completed before the last piece of its delivery, i.e. received-but-unread bytes stay in the
+transport -/
+def runPieces (method : Bytes) (cap : Nat) : St → List Bytes → St × LoopOut × Bool
+  | st, [] => (st, .more, false)
+  | st, p :: ps =>
+    match recvStep method cap st (.data p) with
+    | (st', .more) => runPieces method cap st' ps
+    | (st', o) => (st', o, !ps.isEmpty)
+
+def runScript (method : Bytes) (cap : Nat) : St → List Recv → St × LoopOut × Bool
+  | st, [] => (st, .more, false)
+  | st, .data seg :: rs =>
+    match runPieces method cap st (splitReads Gen.Http.clientReadSize seg) with
+    | (st', .more, _) => runScript method cap st' rs
+    | res => res
+  | st, r :: rs =>
+    match recvStep method cap st r with
+    | (st', .more) => runScript method cap st' rs
+    | (st', o) => (st', o, false)
+
+/-- what `executeRequest` does after the loop: (result, connection dropped?) - every exception drops the connection
+(`catch (...) { dropConnection; throw; }`); a response keeps it only if reusable: the client allows reuse, the response does
+not ask for close, no surplus was framed, the body was not close-delimited, and the zero-timeout probe
+`residualDataPending` finds nothing left in the transport -/
+def executeReceive (method : Bytes) (maxResponseBytes jsonMaxPayload : Nat) (reuseConnections : Bool) (script : List Recv) :
+    LoopOut × Bool :=
+  let cap := effectiveCap maxResponseBytes jsonMaxPayload
+  match runScript method cap {} script with
+  | (st, .response r ev, residual) =>
+    let reusable := reuseConnections && !responseRequestsClose r && !ev &&
+      !(decide (st.framing.mode = .closeDelimited)) && !residual
+    (.response r ev, !reusable)
+  | (_, o, _) => (o, true)
 
 end Iora.Http
